@@ -183,6 +183,8 @@ func leafDefs(name string) []*Def {
 		return []*Def{{Kind: "struct", Name: "StrS", Fields: []Field{{Name: "s", Type: prim("string")}, {Name: "n", Type: prim("int16")}}}}
 	case "Empty":
 		return []*Def{{Kind: "struct", Name: "Empty"}}
+	case "EmptyM":
+		return []*Def{{Kind: "message", Name: "EmptyM"}}
 	case "RO":
 		return []*Def{{Kind: "struct", Name: "RO", ReadOnly: true, Fields: []Field{{Name: "x", Type: prim("uint16")}, {Name: "s", Type: prim("string")}}}}
 	case "Msg":
@@ -200,7 +202,7 @@ func leafDefs(name string) []*Def {
 	panic("unknown leaf " + name)
 }
 
-var RecordLeaves = []string{"Fixed", "StrS", "Empty", "RO", "Msg", "MsgD", "Uni", "RecM"}
+var RecordLeaves = []string{"Fixed", "StrS", "Empty", "EmptyM", "RO", "Msg", "MsgD", "Uni", "RecM"}
 
 type leaf struct {
 	name string
@@ -289,7 +291,7 @@ var MapKeyTypes = []string{"bool", "byte", "uint16", "int16", "int32", "uint64",
 // of shape-name substrings.
 func Shapes(tier string) []*Pkg { return ShapesProfile(tier, "full") }
 
-var liteLeaves = map[string]bool{"bool": true, "int32": true, "string": true, "guid": true, "date": true, "EUint16": true, "Fixed": true, "StrS": true, "Empty": true, "Msg": true, "Uni": true, "RecM": true}
+var liteLeaves = map[string]bool{"bool": true, "int32": true, "string": true, "guid": true, "date": true, "EUint16": true, "Fixed": true, "StrS": true, "Empty": true, "EmptyM": true, "Msg": true, "Uni": true, "RecM": true}
 
 // ShapesProfile enumerates the corpus; profile "lite" (used in the quick tier
 // by the checks whose cost grows with the encoding length: cut points, fault
@@ -357,7 +359,7 @@ func ShapesProfile(tier, profile string) []*Pkg {
 			continue
 		}
 		for ci, ct := range Ctors[:2] {
-			if ci == 1 && !(lf.name == "string" || lf.name == "int32" || lf.name == "StrS" || lf.name == "Msg") {
+			if ci == 1 && !(lf.name == "string" || lf.name == "int32" || lf.name == "StrS" || lf.name == "Msg" || lf.name == "Empty" || lf.name == "EmptyM") {
 				continue
 			}
 			for _, cx := range []string{"struct", "message"} {
@@ -396,6 +398,13 @@ func ShapesProfile(tier, profile string) []*Pkg {
 		d := &Def{Kind: "struct", Name: "Rec", ReadOnly: cx == "rostruct", Fields: fields}
 		p := &Pkg{Schema: &Schema{Defs: []*Def{d}}, Leaf: "guid", Ctor: "wide", Context: cx}
 		p.Shape = "17 guid fields (272 bytes of fixed-size fields in a row) in a " + cx
+		out = append(out, p)
+	}
+	// the record itself has no fields (a message still occupies length + terminator)
+	for _, cx := range []string{"struct", "message"} {
+		d := &Def{Kind: cx, Name: "Rec"}
+		p := &Pkg{Schema: &Schema{Defs: []*Def{d}}, Leaf: "none", Ctor: "empty-record", Context: cx}
+		p.Shape = "a " + cx + " without fields as the record"
 		out = append(out, p)
 	}
 	for i, p := range out {
